@@ -178,7 +178,8 @@ structure Script where
   fwd : Str                        -- options.ForwardedFor
   loc : Answer
   remotes : List (Str × Answer)    -- conn.remotes (a map: ids distinct)
-  order : List (Str × Answer)      -- the non-hanging remotes in the order their calls complete
+  order : List (Str × Answer)      -- the remotes in the order their calls complete (hanging ones,
+                                   -- if listed, deliver nothing)
 deriving Repr
 
 /-- by-UUID branch (conn.go:248-255): no hash check; rewritten iff the prefix is not ours -/
@@ -198,7 +199,7 @@ def getByPDH (md5 : Str → Str) (s : Script) : Result :=
     if st ≠ 404 ∨ s.fwd ≠ [] then .error st
     else
       let outs := delivered md5 s.req s.order
-      recvLoop outs (s.remotes.length - s.order.length)
+      recvLoop outs (s.remotes.length - outs.length)
 
 def collectionGet (md5 : Str → Str) (s : Script) : Result :=
   if s.req.length = 27 then getByUUID s else getByPDH md5 s
@@ -212,7 +213,8 @@ def needsClientCancel (md5 : Str → Str) (s : Script) : Bool :=
     | some (.accept _) => false
     | some (.fail st) =>
       if st ≠ 404 ∨ s.fwd ≠ [] then false
-      else (firstAccept (delivered md5 s.req s.order)).isNone && decide (s.order.length < s.remotes.length)
+      else (firstAccept (delivered md5 s.req s.order)).isNone
+        && decide ((delivered md5 s.req s.order).length < s.remotes.length)
 
 /-- Which backends see a CollectionGet call: `true` = the fan-out to all remotes happens. -/
 def fansOut (md5 : Str → Str) (s : Script) : Bool :=
@@ -256,23 +258,26 @@ structure Signed where
   after : List Str           -- hints of m[8]
 deriving Repr, DecidableEq
 
+/-- optional `(\+[0-9]+)` part: a non-empty all-digit part directly after the hash -/
+def splitSize : List Str → Option Str × List Str
+  | p :: r => if p ≠ [] ∧ p.all isDigit = true then (some p, r) else (none, p :: r)
+  | [] => (none, [])
+
+/-- hints* signature hints* -/
+def parseHints (h : Str) (size : Option Str) (hs : List Str) : Option Signed :=
+  match hs.dropWhile isHintPart with
+  | s :: after =>
+    if isSigPart s && after.all isHintPart then
+      some { hash := h, size := size, before := hs.takeWhile isHintPart, sig := s, after := after }
+    else none
+  | [] => none
+
 /-- SignedLocatorRe as a parser over the `+`-separated parts of a token -/
 def parseSigned (t : Str) : Option Signed :=
   match splitOn '+' t with
   | [] => none
   | h :: ps =>
-    if h.length == 32 && h.all isXDigit then
-      let (size, hs) : Option Str × List Str :=
-        match ps with
-        | p :: r => if p ≠ [] ∧ p.all isDigit = true then (some p, r) else (none, ps)
-        | [] => (none, [])
-      let before := hs.takeWhile isHintPart
-      match hs.dropWhile isHintPart with
-      | s :: after =>
-        if isSigPart s && after.all isHintPart then
-          some { hash := h, size := size, before := before, sig := s, after := after }
-        else none
-      | [] => none
+    if h.length == 32 && h.all isXDigit then parseHints h (splitSize ps).1 (splitSize ps).2
     else none
 
 def Signed.hashSize (p : Signed) : Str :=
